@@ -6,6 +6,18 @@ ROOT = os.path.dirname(os.path.dirname(os.path.abspath(__file__)))
 
 # id -> (technique, level text, level note, design ref)
 CLAIMED = {
+ "C03": ("SSA must-pass-through (guard dominance) + value provenance of the compared buffers + use-set (typestate) of the pending file",
+         "Decides: every CloseAtomicallyReplace is dominated by bytes.Equal(full h.Sum(nil), full trailer read from the wire)==true; the pending file is only ever written through io.MultiWriter(out,h) with the same seeded hash; hash seeding identical on both ends; no replace-on-close API anywhere; the error of receiveData is propagated at every call site up to the session result. Does not decide that MD4 detects every corruption.",
+         "Trusted: MD4 (probabilistic), renameio semantics. The idiom set for error propagation is the repository's (`if err != nil {return}` / `return f()`).",
+         "DESIGN.md §3 C03"),
+ "C04": ("API confinement over the reachable call graph + SSA dominance/typestate (defer-cleanup dominates returns, no write after replace, join before effects)",
+         "Decides that nothing reachable from the receiver writes content or links under a final name except via renameio.NewPendingFile(WithRoot only)/SymlinkRoot; that a deferred Cleanup covers every return after creation; no write after the atomic replace; first error aborts before post-transfer effects. Crash atomicity itself is rename(2) inside renameio (trusted).",
+         "Trusted: rename(2)/renameio atomicity. Not covered: temp-file removal when Do returns while the receiver goroutine is still blocked (see DESIGN.md).",
+         "DESIGN.md §3 C04"),
+ "C07": ("guard dominance lifted over the rsyncd package call graph + reachability (send path effect-free) + field-store provenance",
+         "Decides: every write effect / entry into the receiving engine in package rsyncd is dominated by Module.Writable==true on every chain; nothing reachable from the send path mutates the file system; Writable and the module table are immutable after construction; FS-backed modules cannot be writable.",
+         "Trusted: mutator classification table; configuration decoding happens before sessions. Library entry points with caller-chosen module are assumptions.",
+         "DESIGN.md §3 C07"),
  "C05": ("API-confinement (who-may-call) + SSA value provenance over the escape-edge VTA call graph",
          "Decides a structural necessary condition, not the behaviour: no function reachable from the receiver calls an ambient-authority file API; every *os.Root operation uses Transfer.DestRoot (provenance through parameters/phis); DestRoot only ever holds an os.OpenRoot result; special files are created fd-relative with a base name; the delete walk is over DestRoot.FS(). Confinement itself is os.Root's guarantee.",
          "Trusted: os.Root/kernel path confinement, renameio.WithRoot. Linux configurations only. Call graph soundness: no reflection/unsafe in module code; foreign code calls only what it is handed.",
